@@ -278,7 +278,7 @@ func (h *history) run(storeDir string) {
 		switch op {
 		case "flush":
 			h.phase = "flush"
-			fo := blocks.FileOptions{Seq: h.seq, MaxSlot: spec.Gen.MaxSlot, PSilent: spec.PSilent, NoSilentBucket: spec.Kind != "silent"}
+			fo := blocks.FileOptions{Seq: h.seq, MaxSlot: spec.Gen.MaxSlot, PSilent: spec.PSilent}
 			if spec.Kind == "big" {
 				fo.AllMetrics = true
 				fo.NoLongRange = true
@@ -381,7 +381,7 @@ func (h *history) run(storeDir string) {
 			// a flush commits while a compaction job may be running: the new table either becomes an input of the job or
 			// stays on level 0; only the family-level oracle applies (the job's inputs are not observable from outside)
 			h.phase = "compact"
-			fo := blocks.FileOptions{Seq: h.seq, MaxSlot: spec.Gen.MaxSlot, PSilent: spec.PSilent, NoSilentBucket: spec.Kind != "silent"}
+			fo := blocks.FileOptions{Seq: h.seq, MaxSlot: spec.Gen.MaxSlot, PSilent: spec.PSilent}
 			blks, shape := h.u.GenFile(h.rnd, fo)
 			for _, b := range blks {
 				spec.Files = append(spec.Files, fmt.Sprintf("flush#%d (during compaction): %s", h.seq, b.Describe()))
